@@ -36,32 +36,49 @@ def rule_k1(F):
     b = find_body(F, "::instruction", r, contains="codegen::")
     if not b:
         return r
-    ld = hir.LocalDefs(b.hir)
-    ms = hir.find_match_on(b.hir["value"], "Instruction::", min_arms=10)
-    if not ms:
-        r.missing("match over lir::Instruction in codegen::instruction")
+    # the arms are EVALUATED (vf/sx: helpers followed): which trapping builder operations does instruction() reach for a division /
+    # remainder, and is a guard on the divisor emitted before them on that path?
+    from .. import sx
+    from ..callgraph import CallGraph
+    ipos = [i for i, p_ in enumerate(b.hir.get("params") or []) if "Instruction" in str(p_.get("ty") or "")]
+    if not ipos:
+        r.missing("the lir::Instruction parameter of codegen::instruction")
         return r
-    for rw in hir.table(ms[0]):
-        arm = rw["alts"][0].split("{")[0].split("(")[0]
-        calls = [c for c in hir.nodes(rw["body"], "mcall")]
-        for c in calls:
-            if c["m"] not in TRAPPING:
+    ex = sx.Exec(F)
+    for name in ("Div", "Mod", "FDiv"):
+        for signed in (True, False):
+            val = ("ctor", name, ("to", sx.Sym("to")), ("left", sx.Sym("left")), ("right", sx.Sym("right")), ("signed", signed))
+            try:
+                ps = ex.paths(b.hir, {ipos[0]: val})
+            except (sx.TooManyPaths, sx.Unknown) as e_:
+                r.bad("codegen instruction", "Instruction::%s" % name, relfile(b.file), b.line, "cannot evaluate codegen::instruction on Instruction::%s: %s" % (name, e_))
                 continue
-            key = "%s %s" % (arm, c["m"])
-            div_roots = field_roots(ld, c["args"][-1]) - {"self"} if c["args"] else set()
-            guards = [g for g in calls if g["m"] in GUARDS and g["line"] <= c["line"] and any((field_roots(ld, a) - {"self"}) & div_roots for a in g["args"])]
-            r.inst(key, {"arm": arm, "op": c["m"], "operand": sorted(div_roots), "guards_before": [g["m"] for g in guards]})
-            if not guards:
-                r.bad("codegen instruction", key, relfile(b.file), c["line"],
-                      "%s is emitted without a guard on its operand: a zero divisor (or MIN / -1) raises a hardware trap that kills the host process" % c["m"])
-    # other bodies of the code generator must not emit trapping instructions at all
+            seen_ops = {}
+            for _, evs in ps:
+                for i, e in enumerate(evs):
+                    if e[0] != "mcall" or e[1] not in TRAPPING:
+                        continue
+                    divisor = e[3][-1] if e[3] else None
+                    guards = [g[1] for g in evs[:i] if g[0] == "mcall" and g[1] in GUARDS and any(sx.mentions(a, "right") for a in g[3])]
+                    prev = seen_ops.get(e[1])
+                    seen_ops[e[1]] = guards if prev is None else [x for x in prev if x in guards]
+            for op, guards in sorted(seen_ops.items()):
+                key = "Instruction::%s %s" % (name, op)
+                if key in {k for k in r.instances}:
+                    continue
+                r.inst(key, {"arm": "Instruction::" + name, "op": op, "guards_before": guards})
+                if not guards:
+                    r.bad("codegen instruction", key, relfile(b.file), b.line,
+                          "%s is emitted without a guard on its operand: a zero divisor (or MIN / -1) raises a hardware trap that kills the host process" % op)
+    # bodies of the code generator that instruction() does not reach must not emit trapping instructions at all
+    reach, _ = CallGraph(F).reachable([b.path])
     for ob in F.bodies_in(["src/codegen/mod.rs"]):
-        if not ob.hir or ob.path == b.path:
+        if not ob.hir or ob.path == b.path or ob.path in reach or ob.path.split("::{closure")[0] in reach:
             continue
         for c in hir.nodes(ob.hir.get("value") or {}, "mcall"):
             if c["m"] in TRAPPING and "ins" in [n.get("m") for n in hir.walk(c["recv"])]:
                 r.inst("%s %s" % (ob.path, c["m"]))
-                r.bad(ob.path, c["m"], relfile(ob.file), c["line"], "trapping instruction %s emitted outside the reviewed instruction() arms" % c["m"])
+                r.bad(ob.path, c["m"], relfile(ob.file), c["line"], "trapping instruction %s emitted outside instruction() and the helpers it calls" % c["m"])
     return r
 
 
